@@ -4,7 +4,7 @@ Config texts from a grammar (classes A/B/C with symbolic base choice incl. self 
 then evaluated on all paths of length <= 2 over the name set (existing or not) and compared with a reference model (ordered own entries, single
 base link resolved in the enclosing scopes, nearest definition wins, re-opening merges, delete hides, += appends). Every lookup must terminate
 within the step budget: a cyclic inheritance relation shows as a budget hit."""
-import z3
+import z3, re
 import symrt as rt, vmh, oblig
 from symrt import S
 import C01
@@ -232,6 +232,29 @@ def _key(oid):
         return '%s:%s' % (oid, re.sub(r'[^A-Za-z]+', '_', m)[:60])
     return k
 
+VALUES = [('n1', '1', 1.0), ('n2', '-2.5', -2.5), ('n3', '1e3', 1000.0), ('n4', '0.125', 0.125), ('n5', '0x1F', 31.0), ('n6', '-7', -7.0), ('n7', '16777216', 16777216.0),
+          ('s1', '"abc"', 'abc'), ('s2', '"a""b"', 'a"b'), ('s3', '""', ''), ('s4', '"x y;{}"', 'x y;{}'), ('s5', "'q'", 'q'),
+          ('a1', '{1, 2}', [1.0, 2.0]), ('a2', '{}', []), ('a3', '{1, {2, "y"}, {}}', [1.0, [2.0, 'y'], []]), ('a4', '{"a", {"b", {3}}}', ['a', ['b', [3.0]]]), ('a5', '{-1.5, "p""q"}', [-1.5, 'p"q'])]
+def values_case(h, which):
+    def case():
+        vm = h.new_vm(); h.reset_obs(); h.run(vm, QF)
+        ents = [VALUES[i] for i in which]
+        txt = 'class V {\n' + ''.join('  %s%s = %s;\n' % (n, '[]' if isinstance(e, list) else '', t) for n, t, e in ents) + '};\nclass W : V { };\n'
+        if h.parse_config(vm, txt) != 1:
+            rt.record_violation('assert', 'config text does not load: %r (%s)' % (txt, [l[2][:80] for l in h.errors()[:1]])); return dict(text=txt, n=0)
+        qs = []; exp = []
+        for cls in ('V', 'W'):
+            for n, t, e in ents:
+                qs.append([cls, n]); exp.append(('array', e) if isinstance(e, list) else ('text', e) if isinstance(e, str) else ('number', e))
+        for q, e in zip(qs, exp):
+            h.reset_obs(); rt.STEP[0] = 0
+            h.run(vm, vm_query(q))
+            got = decode(h.traces[-1]) if h.traces else None
+            if got != e: rt.record_violation('assert', 'configFile >> %s reads back %r, written %r (config %r)' % (' >> '.join(q), got, e, txt)); break
+        for v in rt.PS.violations: v['spec'] = dict(kind='cfg', cfg=[txt], queries=qs, expect=[render_expected(x) for x in exp])
+        return dict(text=txt, n=len(qs))
+    return case
+
 def _replayfn(kind, tier):
     def f(cid, v, rr):
         if v.get('spec'): return v['spec']
@@ -277,6 +300,13 @@ def run(ctx):
         if r:
             ob, recs = r
             oblig.witness_check(ob, recs, lambda rr: rr['verdict'] == 'ok' and (rr.get('n') or 0) > 10, 'a config whose lookups were compared'); obs.append(ob)
+    groups = [list(range(i, min(i + 4, len(VALUES)))) for i in range(0, len(VALUES), 4)]
+    r = oblig.run('cfg.values', [('values%d' % i, values_case(h, g)) for i, g in enumerate(groups)], ctx, funcs, '%d literal entries (decimal, negative, exponent, hexadecimal numbers; strings with doubled quotes, empty, single-quoted; flat, empty and nested arrays), read back from the defining class and from a derived class' % len(VALUES),
+                  assumptions=['strtod/strtol are the libc functions (called through ctypes)', 'allocation failure is out of scope'], case_timeout=600, keyfn=lambda cid, v, rr: 'cfg.values:%s' % re.sub(r'[^A-Za-z0-9>]+', '_', v.get('msg', ''))[:60],
+                  replayfn=lambda cid, v, rr: v.get('spec'), step_limit=QSTEP, budget_is_violation='a config lookup does not terminate')
+    if r:
+        ob, recs = r
+        oblig.witness_check(ob, recs, lambda rr: rr['verdict'] == 'ok' and (rr.get('n') or 0) > 3, 'a config whose values were read back'); obs.append(ob)
     r = oblig.run('cfg.cycles', [(k, fixed_case(h, k)) for k in FIXED], ctx, funcs, '%d configs that try to make the inheritance relation cyclic or re-bind a base; all 36 lookup paths must terminate' % len(FIXED), assumptions=['allocation failure is out of scope'], case_timeout=900,
                   keyfn=lambda cid, v, rr: 'cfg.cycles:%s' % cid, replayfn=lambda cid, v, rr: dict(kind='cfg', cfg=[FIXED[cid]], queries=queries('nested')), step_limit=QSTEP, budget_is_violation='a config lookup does not terminate (cyclic inheritance)')
     if r:
